@@ -193,6 +193,26 @@ Section TransformProofs.
   Proof.
     intros Hdiv [[e0 e1] e2] [[i0 i1] i2] [[u0 u1] u2]. mred. rewrite !Hdiv. vec_eq; ring.
   Qed.
+  (* right-handed frame: the side column is a positive multiple (k2 = 1/|front x up|) of up x front,
+     and the determinant of the linear part is k2 * |up x front|^2 *)
+  Lemma lookat_side_column : (forall p q, odiv O p q = p * oinv O q) ->
+    forall eye interest up,
+    let front := toUnitVec O (vsub (osub O) eye interest) in
+    let fu := vcross (omul O) (osub O) front up in
+    mcol3 r0 (lookat_matrix O eye interest up) 0 =
+    vscale (omul O) (oinv O (osqrt O (vdot (oadd O) (omul O) fu fu))) (vcross (omul O) (osub O) up front).
+  Proof.
+    intros Hdiv [[e0 e1] e2] [[i0 i1] i2] [[u0 u1] u2]. cbv zeta. mred. rewrite !Hdiv. vec_eq; ring.
+  Qed.
+  Lemma lookat_det : (forall p q, odiv O p q = p * oinv O q) ->
+    forall eye interest up,
+    let front := toUnitVec O (vsub (osub O) eye interest) in
+    let fu := vcross (omul O) (osub O) front up in
+    det3 (oadd O) (omul O) (osub O) (lookat_matrix O eye interest up) =
+    oinv O (osqrt O (vdot (oadd O) (omul O) fu fu)) * vdot (oadd O) (omul O) fu fu.
+  Proof.
+    intros Hdiv [[e0 e1] e2] [[i0 i1] i2] [[u0 u1] u2]. cbv zeta. mred. rewrite !Hdiv. ring.
+  Qed.
   Lemma lookat_up_column : forall eye interest up,
     mcol3 r0 (lookat_matrix O eye interest up) 1 = up.
   Proof. intros [[e0 e1] e2] [[i0 i1] i2] [[u0 u1] u2]. reflexivity. Qed.
